@@ -1,3 +1,4 @@
+import RactorModel.Lemmas.GenLeakyBucket
 import RactorModel.Lemmas.LeakyBucket
 import RactorModel.Lemmas.FactoryFrame
 import RactorModel.Extracted
@@ -587,6 +588,70 @@ example : admitted ⟨2, 100, 50, 10 ^ 30⟩ (new ⟨2, 100, 50, 10 ^ 30⟩ (som
 /-- unrepresentable deadline: never refills, never panics -/
 example : (new ⟨1, 10 ^ 31, 10, 10 ^ 30⟩ (some 0) 5).deadline = none := by decide
 
+
+/-! ### Translator tie (rs2lean): kernel-checked equivalence between the definitions that
+`extract/rs2lean.py` regenerates from the CURRENT Rust source on every run
+(`RactorModel/Generated/*.lean`) and the hand-written model functions the theorems above are
+about. A semantic change of the Rust function changes the generated text and these stop checking. -/
+
+section XlateTie
+open Generated.LeakyBucket GenLeakyBucket
+
+theorem generated_leaky_new_eq_model (instLim clock refill interval max : Nat) (initial : Option Nat) :
+    absLB (LeakyBucketRateLimiter.new instLim clock refill interval max initial)
+        = LeakyBucket.new ⟨refill, interval, max, instLim⟩ initial clock
+      ∧ absCfg instLim (LeakyBucketRateLimiter.new instLim clock refill interval max initial)
+        = ⟨refill, interval, max, instLim⟩ := by
+  refine ⟨?_, rfl⟩
+  simp [LeakyBucketRateLimiter.new, absLB, LeakyBucket.new, Rust.instantCheckedAdd, LeakyBucket.checkedAdd]
+
+/-- `refresh`, for every state within the range of the Rust types: `now` an `Instant`
+(ns offset `< 2^127`), `interval` a `Duration` (`< 2^64 s`). -/
+theorem generated_leaky_refresh_eq_model (instLim clock : Nat) (s : LeakyBucketRateLimiter) (now : Nat)
+    (hnow : now < 2 ^ 127) (hint : s.interval < 2 ^ 64 * 1000000000) :
+    absLB (LeakyBucketRateLimiter.refresh instLim clock s now)
+        = LeakyBucket.refresh (absCfg instLim s) (absLB s) now
+      ∧ absCfg instLim (LeakyBucketRateLimiter.refresh instLim clock s now) = absCfg instLim s := by
+  unfold LeakyBucketRateLimiter.refresh LeakyBucket.refresh
+  rcases s with ⟨refill, interval, max, balance, deadline⟩
+  cases deadline with
+  | none => exact ⟨rfl, rfl⟩
+  | some d =>
+    simp only [absLB, absCfg]
+    by_cases h1 : now < d
+    · simp [h1]
+    · by_cases h2 : interval = 0
+      · subst h2
+        simp [h1, LeakyBucket.satAdd, Rust.satAdd, LeakyBucket.USIZE_MAX]
+      · have hr : (now - d) % interval < 2 ^ 64 * 1000000000 :=
+          Nat.lt_trans (Nat.mod_lt _ (Nat.pos_of_ne_zero h2)) hint
+        have hq : (now - d) / interval + 1 < 2 ^ 128 := by
+          have : (now - d) / interval ≤ now - d := Nat.div_le_self _ _
+          omega
+        simp only [h1, h2, decide_false, Bool.false_eq_true, ↓reduceIte, split_nanos _ hr, periods_eq _ hq]
+        simp [LeakyBucket.tokens, LeakyBucket.periods, LeakyBucket.satMul, LeakyBucket.satAdd, Rust.satMul, Rust.satAdd,
+          LeakyBucket.USIZE_MAX, _root_.LeakyBucket.MAX_LB_BALANCE, Generated.LeakyBucket.MAX_LB_BALANCE, Rust.instantCheckedAdd, LeakyBucket.checkedAdd]
+
+theorem generated_leaky_check_eq_model (instLim clock : Nat) (s : LeakyBucketRateLimiter)
+    (hnow : clock < 2 ^ 127) (hint : s.interval < 2 ^ 64 * 1000000000) :
+    (absLB (LeakyBucketRateLimiter.check instLim clock s).1, (LeakyBucketRateLimiter.check instLim clock s).2)
+        = LeakyBucket.check (absCfg instLim s) (absLB s) clock
+      ∧ absCfg instLim (LeakyBucketRateLimiter.check instLim clock s).1 = absCfg instLim s := by
+  have h := generated_leaky_refresh_eq_model instLim clock s clock hnow hint
+  simp only [LeakyBucketRateLimiter.check, LeakyBucket.check, ← h.1, h.2]
+  exact ⟨rfl, trivial⟩
+
+/-- `bump` (`balance -= 1` is wrapping subtraction at 64 bits; `balance` a `usize`). -/
+theorem generated_leaky_bump_eq_model (instLim clock : Nat) (s : LeakyBucketRateLimiter) (hb : s.balance < 2 ^ 64) :
+    absLB (LeakyBucketRateLimiter.bump instLim clock s) = LeakyBucket.bump (absLB s)
+      ∧ absCfg instLim (LeakyBucketRateLimiter.bump instLim clock s) = absCfg instLim s := by
+  unfold LeakyBucketRateLimiter.bump LeakyBucket.bump
+  by_cases h : s.balance > 0
+  · have : Rust.wSub 64 s.balance 1 = s.balance - 1 := by unfold Rust.wSub; omega
+    simp [h, absLB, absCfg, this]
+  · simp [h, absLB]
+end XlateTie
+
 end C15
 
 #print axioms C15.bucket_balance_le_max
@@ -626,3 +691,8 @@ end C15
 #print axioms C15.hooks_in_order
 #print axioms C15.extracted_pool_maximum
 #print axioms C15.extracted_calculate_frequency
+-- rs2lean tie
+#print axioms C15.generated_leaky_new_eq_model
+#print axioms C15.generated_leaky_refresh_eq_model
+#print axioms C15.generated_leaky_check_eq_model
+#print axioms C15.generated_leaky_bump_eq_model
